@@ -646,7 +646,8 @@ lower-cased suffixes, the Thermo sniffer on `.csv` files, the loop over the two 
 collection methods with its `except ValueError: pass`, the early `return` of an .npz with its stored
 configuration, the sequential configuration overlay) equals `loadSpec`: the row of `table` that
 applies names the candidate calls, `choose` says which of them delivers (the first that does not end
-in a `ValueError`; the last successful one when `load_info` itself raises `ValueError`), the image has
+in a `ValueError`; the last successful one when `load_info` itself raises `ValueError`; a traceback
+when `load_info` fails otherwise after a successful call), the image has
 the loader's elements and data and the configuration `configSpec` makes of its parameters; no row —
 or no successful candidate — is a usage error (`parser.error`, exit status 2), any exception other
 than `ValueError` ends the run with a traceback (`.crash`). -/
@@ -656,7 +657,7 @@ theorem load_eq_spec (d : Tok × Tok × Tok) (s : Source) : loadMech d s = loadS
   cases hd : s.isDir
   · simp only [Bool.false_eq_true, if_false]
     by_cases h2 : s.sfx = ".npz"
-    · simp [isAgilentBatch, isPerkinDir, isCsvDir, isNpzFile, isThermoCsv, isTextImage, hd, h2, rowNpz, choose_single, Source.image]
+    · simp [isAgilentBatch, isPerkinDir, isCsvDir, isNpzFile, isThermoCsv, isTextImage, hd, h2, rowNpz, Source.infoFor, choose_single, Source.image]
       cases s.npz <;> rfl
     · by_cases h3 : s.sfx = ".csv"
       · simp only [isAgilentBatch, isPerkinDir, isCsvDir, isNpzFile, isThermoCsv, isTextImage, hd, h3, sniffIs]
@@ -664,27 +665,29 @@ theorem load_eq_spec (d : Tok × Tok × Tok) (s : Source) : loadMech d s = loadS
         | ok fmt =>
           by_cases ht : isThermo fmt = true
           · have ht' : (fmt == "columns" || fmt == "rows") = true := ht
-            simp [ht, ht', rowThermo, callOnce_spec]
+            simp [ht, ht', rowThermo, Source.infoFor, callOnce_spec]
           · have ht' : (fmt == "columns" || fmt == "rows") = false := by simpa [isThermo] using ht
-            simp [ht, ht', rowText, callOnce_spec]
+            simp [ht, ht', rowText, Source.infoFor, callOnce_spec]
         | valueError => simp [Outcome.isOther]
         | otherError => simp [Outcome.isOther]
       · by_cases h4 : s.sfx = ".txt"
-        · simp [isAgilentBatch, isPerkinDir, isCsvDir, isNpzFile, isThermoCsv, isTextImage, hd, h4, rowText, callOnce_spec]
+        · simp [isAgilentBatch, isPerkinDir, isCsvDir, isNpzFile, isThermoCsv, isTextImage, hd, h4, rowText, Source.infoFor, callOnce_spec]
         · by_cases h5 : s.sfx = ".text"
-          · simp [isAgilentBatch, isPerkinDir, isCsvDir, isNpzFile, isThermoCsv, isTextImage, hd, h5, rowText, callOnce_spec]
+          · simp [isAgilentBatch, isPerkinDir, isCsvDir, isNpzFile, isThermoCsv, isTextImage, hd, h5, rowText, Source.infoFor, callOnce_spec]
           · simp [isAgilentBatch, isPerkinDir, isCsvDir, isNpzFile, isThermoCsv, isTextImage, hd, h2, h3, h4, h5]
   · simp only [if_true]
     by_cases h1 : s.sfx = ".b"
     · simp only [isAgilentBatch, isPerkinDir, isCsvDir, isNpzFile, isThermoCsv, isTextImage, hd, h1]
       simp only [Bool.true_and, beq_self_eq_true, if_true, bne_self_eq_false, Bool.false_and, Bool.and_false,
-        Bool.false_eq_true, if_false, Bool.not_true, List.append_nil, rowAgilent]
+        Bool.false_eq_true, if_false, Bool.not_true, List.append_nil]
+      have hi : s.infoFor rowAgilent = s.info := by simp [Source.infoFor, rowAgilent, agilentMethods]
+      rw [hi]
       exact choose_agilent d s
     · cases hp : s.perkinValid
       · cases hc : s.csvValid
         · simp [isAgilentBatch, isPerkinDir, isCsvDir, isNpzFile, isThermoCsv, isTextImage, hd, h1, hp, hc]
-        · simp [isAgilentBatch, isPerkinDir, isCsvDir, isNpzFile, isThermoCsv, isTextImage, hd, h1, hp, hc, rowCsvDir, callOnce_spec]
-      · simp [isAgilentBatch, isPerkinDir, isCsvDir, isNpzFile, isThermoCsv, isTextImage, hd, h1, hp, rowPerkin, callOnce_spec]
+        · simp [isAgilentBatch, isPerkinDir, isCsvDir, isNpzFile, isThermoCsv, isTextImage, hd, h1, hp, hc, rowCsvDir, Source.infoFor, callOnce_spec]
+      · simp [isAgilentBatch, isPerkinDir, isCsvDir, isNpzFile, isThermoCsv, isTextImage, hd, h1, hp, rowPerkin, Source.infoFor, callOnce_spec]
 
 /-- reading `load_eq_spec` for a successful load: exactly one row of the table applies to the path,
 the delivering call is one of its candidates, and the image is what that call gives under the
@@ -732,7 +735,7 @@ example :
     let ld : Loaded := { elements := ["A"], data := ⟨1, 1, fun _ _ _ => 0⟩, params := ⟨none, none, some 7⟩ }
     let src (dir : Bool) (sfx : String) (csv : Bool) (sn : String) (call : Loader → Outcome Loaded) : Source :=
       { path := ⟨"R", "x", sfx⟩, present := true, isDir := dir, perkinValid := false, csvValid := csv,
-        sniff := .ok sn, infoFails := false, call := call, npz := .valueError }
+        sniff := .ok sn, info := .ok (), call := call, npz := .valueError }
     let second : Loader → Outcome Loaded := fun l => if l = .agilent ["acq_method_xml"] then .ok ld else .valueError
     let all : Loader → Outcome Loaded := fun _ => .ok ld
     let who (s : Source) : Option Loader := (loadMech (35, 140, 25) s).toOption.map (·.1)
@@ -1064,11 +1067,11 @@ read (the second method list delivers, scan time 7 from the loader) -/
 def exLoaded : Loaded := { elements := ["A"], data := ⟨1, 2, fun _ j _ => 10 + j⟩, params := ⟨none, none, some 7⟩ }
 def exSrcB : Source :=
   { path := ⟨"R", "x", ".B"⟩, present := true, isDir := true, perkinValid := false, csvValid := false,
-    sniff := .valueError, infoFails := false, npz := .valueError,
+    sniff := .valueError, info := .ok (), npz := .valueError,
     call := fun l => if l = .agilent ["acq_method_xml"] then .ok exLoaded else .valueError }
 def exSrcNpz : Source :=
   { path := ⟨"R", "a", ".npz"⟩, present := true, isDir := false, perkinValid := false, csvValid := false,
-    sniff := .valueError, infoFails := false, npz := .ok exS2, call := fun _ => .otherError }
+    sniff := .valueError, info := .ok (), npz := .ok exS2, call := fun _ => .otherError }
 def exMain (calibrate : Bool) : CmdLine :=
   { cmd := .stack .vertical (-1), calibrate := calibrate, sources := [exSrcB, exSrcNpz], format := ".npz",
     output := some ⟨"R", "out", ".npz"⟩, isDir := fun _ => false, defaults := (35, 140, 25) }
